@@ -5,23 +5,34 @@
 (* receive, the contents of *va and **kw, or TypeError (with the kinds of error, which are      *)
 (* reported but never compared).  The call shapes themselves are printed once.                  *)
 EXTENDS PyCall
-Units == ndJsonDeserialize("units.ndjson")      \* [id, si, cis]
+Units == ndJsonDeserialize("units.ndjson")      \* [id, si, form ("func" | "method"), cis]
 VARIABLES u, v
 
 ASSUME PrintT(ToJson([calls |-> [i \in 1..Len(CallSeq) |->
           [n |-> CallSeq[i].n, kws |-> SetToSeq(CallSeq[i].kws), star |-> CallSeq[i].star,
            hasss |-> CallSeq[i].hasss, ss |-> SetToSeq(CallSeq[i].ss)]]]))
 
-Expect(s, c) ==
+\* A function found on a class and called through an instance, o.f(args), is called as
+\* f(o, args): the receiver takes the first positional slot ("self", a name no keyword of the
+\* space uses) and the remaining parameters bind exactly as for the plain function.
+Receiver(form) == IF form = "method" THEN "inst" ELSE ""
+\* the spec's case partition, used for finding keys: shape of the keyword-only parameters and
+\* whether the call leaves one of them to the keyword-defaults table
+KwoClass(s) == IF Len(s.kwo) = 0 THEN "none"
+               ELSE IF Len(s.kwo) = 1 THEN (IF s.kwo[1].d THEN "k1=d" ELSE "k1")
+               ELSE (IF s.kwo[1].d THEN "k1=d" ELSE "k1") \o "," \o (IF s.kwo[2].d THEN "k2=d" ELSE "k2")
+KwDefaultsConsulted(s, c) == \E i \in 1..Len(s.kwo) : s.kwo[i].name \notin KwGiven(c)
+Part(s, c) == "kwonly=" \o KwoClass(s) \o ";kwdefaults=" \o (IF KwDefaultsConsulted(s, c) THEN "consulted" ELSE "unused")
+Expect(s, c, form) ==
   LET r == BindD(s, c) ps == ParamSeq(s) IN
-  IF r.ok THEN [ok |-> TRUE, vals |-> [i \in 1..Len(ps) |-> r.vals[ps[i]]], va |-> r.va,
-                kw |-> SetToSeq(r.kw), kinds |-> <<>>]
-  ELSE [ok |-> FALSE, vals |-> <<>>, va |-> <<>>, kw |-> <<>>, kinds |-> SetToSeq(ErrKinds(s, c))]
+  IF r.ok THEN [ok |-> TRUE, recv |-> Receiver(form), vals |-> [i \in 1..Len(ps) |-> r.vals[ps[i]]], va |-> r.va,
+                kw |-> SetToSeq(r.kw), kinds |-> <<>>, part |-> Part(s, c)]
+  ELSE [ok |-> FALSE, recv |-> "", vals |-> <<>>, va |-> <<>>, kw |-> <<>>, kinds |-> SetToSeq(ErrKinds(s, c)), part |-> Part(s, c)]
 Record(unit) ==
   LET s == SigSeq[unit.si] IN
-  [id |-> unit.id, si |-> unit.si, sig |-> s, params |-> ParamSeq(s),
+  [id |-> unit.id, si |-> unit.si, form |-> unit.form, sig |-> s, params |-> ParamSeq(s),
    defaults |-> [i \in 1..Len(ParamSeq(s)) |-> HasDefault(s, ParamSeq(s)[i])],
-   cases |-> [j \in 1..Len(unit.cis) |-> [ci |-> unit.cis[j], e |-> Expect(s, CallSeq[unit.cis[j]])]]]
+   cases |-> [j \in 1..Len(unit.cis) |-> [ci |-> unit.cis[j], e |-> Expect(s, CallSeq[unit.cis[j]], unit.form)]]]
 Init == u \in 1..Len(Units) /\ v = "todo"
 Next == v = "todo" /\ UNCHANGED u /\ PrintT(ToJson(Record(Units[u]))) /\ v' = "done"
 Spec == Init /\ [][Next]_<<u, v>>
